@@ -95,6 +95,13 @@ theorem writer_seq_pos {c : Bool} {seq0 mem0 : Nat} : ∀ (evs : List Ev) {s : S
             · cases hs1; exact h
             · cases hs1
           · cases hs1
+        | wFail seq =>
+          simp only [step] at hs1
+          split at hs1
+          · split at hs1
+            · cases hs1; intro w hw; exact h w (List.mem_filter.mp hw).1
+            · cases hs1
+          · cases hs1
       · cases hr
   intro evs s hr
   exact key evs _ s (by intro w hw; simp [init] at hw) hr
